@@ -93,6 +93,8 @@ func genPrintFile(r *RNG, k int) *genFile {
 			case 3:
 				if r.Chance(30) {
 					ctx.Comment("first line\nMOVQ AX, BX // second line of one comment string")
+				} else if r.Chance(40) {
+					ctx.Comment("100% of %d items, rate=%s%%")
 				} else {
 					ctx.Comment("trailing space ")
 				}
